@@ -48,3 +48,66 @@ package statuschecker
 //@   ensures[insert-when-missing] (result1 == nil && result0.action == InitialStatusActionInsertNewCert) ==> i.LocalCert == nil || result0.cert.Height == i.LocalCert.Height + 1 || (result0.cert.Height == i.LocalCert.Height && i.LocalCert.Status == agglayertypes.InError && result0.cert.CertificateID != i.LocalCert.CertificateID)
 //@   ensures[update-same-cert] (result1 == nil && result0.action == InitialStatusActionUpdateCurrentCert) ==> i.LocalCert != nil && result0.cert.CertificateID == i.LocalCert.CertificateID && result0.cert.Height == i.LocalCert.Height
 //@   ensures[action-range] result1 == nil ==> result0.action == InitialStatusActionNone || result0.action == InitialStatusActionInsertNewCert || result0.action == InitialStatusActionUpdateCurrentCert
+
+// ---- the status poll (C02: gate of every submission; C13: the local record follows the Agglayer's verdicts).
+// Boundaries (assumed, A8/A5): the local store returns the certificates whose stored status is not closed, as distinct
+// records (openCerts is that list at the time of the call; storedStatus the status column by certificate id), the
+// Agglayer answers with the certificate's current status (aggStatus, a snapshot).
+//@ ghost var openCerts []*types.CertificateHeader
+//@ ghost var nOpenCerts int
+//@ ghost var aggStatus map[Hash]int
+//@ ghost var storedStatus map[Hash]int
+//@ ghost var statusWrites int
+//@ interface github.com/agglayer/aggkit/aggsender/db.AggSenderStorage.GetCertificateHeadersByStatus (self, status)
+//@   modifies nothing
+//@   ensures result1 == nil ==> off(result0) == 0 && len(result0) == nOpenCerts && seq(result0) == openCerts && forall(k, 0, len(result0), result0[k] != nil && storedStatus[result0[k].CertificateID] == result0[k].Status) && forall(k, 0, len(result0), forall(j, 0, len(result0), k != j ==> result0[k] != result0[j] && result0[k].CertificateID != result0[j].CertificateID))
+//@ interface github.com/agglayer/aggkit/agglayer.AgglayerClientInterface.GetCertificateHeader (self, ctx, certificateHash)
+//@   modifies nothing
+//@   ensures result1 == nil ==> result0 != nil && result0.Status == aggStatus[certificateHash] && 0 <= result0.Status && result0.Status <= 4
+//@ interface github.com/agglayer/aggkit/aggsender/db.AggSenderStorage.UpdateCertificateStatus (self, ctx, certificateID, newStatus, updatedAt)
+//@   modifies storedStatus, statusWrites
+//@   ensures statusWrites == old(statusWrites) + 1
+//@   ensures result == nil ==> storedStatus == upd(old(storedStatus), certificateID, newStatus)
+//@   ensures result != nil ==> storedStatus == old(storedStatus)
+
+//@ extern github.com/agglayer/aggkit/aggsender/metrics.Settled ()
+//@   modifies nothing
+//@ extern github.com/agglayer/aggkit/aggsender/metrics.InError ()
+//@   modifies nothing
+//@ extern time.Now ()
+//@   modifies nothing
+//@ extern (time.Time).UTC (t)
+//@   modifies nothing
+//@ extern (time.Time).Unix (t)
+//@   modifies nothing
+
+// one certificate: the local record takes the Agglayer's status, and the store is written exactly when it differs
+//@ func (c *certStatusChecker) updateCertificateStatus
+//@   props C02 C13
+//@   requires c != nil && c.log != nil && c.storage != nil && localCert != nil && agglayerCert != nil
+//@   modifies localCert.Status, localCert.UpdatedAt, storedStatus, statusWrites
+//@   ensures[same-status-writes-nothing] old(localCert.Status) == agglayerCert.Status ==> result == nil && statusWrites == old(statusWrites) && localCert.Status == old(localCert.Status) && storedStatus == old(storedStatus)
+//@   ensures[local-record-follows-the-agglayer] localCert.Status == agglayerCert.Status
+//@   ensures[changed-status-is-stored-or-an-error] (old(localCert.Status) != agglayerCert.Status && result == nil) ==> statusWrites == old(statusWrites) + 1 && storedStatus == upd(old(storedStatus), localCert.CertificateID, agglayerCert.Status)
+//@   ensures[failed-write-is-an-error] (old(localCert.Status) != agglayerCert.Status && result != nil) ==> storedStatus == old(storedStatus)
+
+// the poll: "nothing pending" is answered only when the store could be read, every open certificate was looked up at
+// the Agglayer, every one of them is now closed there, and every changed status reached the store; any failure on the
+// way answers "pending" (so nothing is submitted)
+//@ func (c *certStatusChecker) CheckPendingCertificatesStatus
+//@   props C02 C13
+//@   requires c != nil && c.log != nil && c.storage != nil && c.agglayerClient != nil
+//@   requires nOpenCerts >= 0
+//@   modifies region("aggsender/types.CertificateHeader.Status"), region("aggsender/types.CertificateHeader.UpdatedAt"), storedStatus, statusWrites
+//@   ensures[nothing-pending-means-every-open-certificate-is-closed-at-the-agglayer] !result.ExistPendingCerts ==> forall(k, 0, nOpenCerts, aggStatus[openCerts[k].CertificateID] != agglayertypes.Pending && aggStatus[openCerts[k].CertificateID] != agglayertypes.Candidate && aggStatus[openCerts[k].CertificateID] != agglayertypes.Proven)
+//@   ensures[and-the-store-says-so] !result.ExistPendingCerts ==> forall(k, 0, nOpenCerts, storedStatus[openCerts[k].CertificateID] == aggStatus[openCerts[k].CertificateID])
+//@   ensures[new-in-error-is-a-real-transition] result.ExistNewInErrorCert ==> exists(k, 0, nOpenCerts, old(openCerts[k].Status) != agglayertypes.InError && aggStatus[openCerts[k].CertificateID] == agglayertypes.InError)
+//@   loop 0 invariant c.log != nil && c.storage != nil && c.agglayerClient != nil
+//@   loop 0 invariant 0 <= rangeindex + 1 && rangeindex + 1 <= len(pendingCertificates) && len(pendingCertificates) == nOpenCerts && off(pendingCertificates) == 0 && seq(pendingCertificates) == openCerts
+//@   loop 0 invariant forall(k, 0, len(pendingCertificates), pendingCertificates[k] != nil) && forall(k, 0, len(pendingCertificates), forall(j, 0, len(pendingCertificates), k != j ==> pendingCertificates[k] != pendingCertificates[j] && pendingCertificates[k].CertificateID != pendingCertificates[j].CertificateID))
+//@   loop 0 invariant forall(k, rangeindex + 1, len(pendingCertificates), pendingCertificates[k].Status == old(openCerts[k].Status) && storedStatus[pendingCertificates[k].CertificateID] == pendingCertificates[k].Status)
+//@   loop 0 invariant rangeindex >= 0 ==> pendingCertificates[rangeindex].Status == aggStatus[pendingCertificates[rangeindex].CertificateID]
+//@   loop 0 invariant forall(k, 0, rangeindex + 1, pendingCertificates[k].Status == aggStatus[pendingCertificates[k].CertificateID])
+//@   loop 0 invariant forall(k, 0, rangeindex + 1, storedStatus[pendingCertificates[k].CertificateID] == aggStatus[pendingCertificates[k].CertificateID])
+//@   loop 0 invariant !thereArePendingCerts ==> forall(k, 0, rangeindex + 1, aggStatus[pendingCertificates[k].CertificateID] != agglayertypes.Pending && aggStatus[pendingCertificates[k].CertificateID] != agglayertypes.Candidate && aggStatus[pendingCertificates[k].CertificateID] != agglayertypes.Proven)
+//@   loop 0 invariant appearsNewInErrorCert ==> exists(k, 0, rangeindex + 1, old(openCerts[k].Status) != agglayertypes.InError && aggStatus[pendingCertificates[k].CertificateID] == agglayertypes.InError)
